@@ -342,3 +342,7 @@ def run(ctx: Context) -> None:  # noqa: F811
 
     ctx.rep.rule('C18.R7', "all real backends answer the same extra-info keys and probe readability on the transport's OS socket, TLS or not")
     backend.extra_info_agreement(ctx, 'C18.R7')
+    from . import support
+
+    ctx.rep.rule('C18.R8', 'every coroutine call of the async code is awaited where it is made (an un-awaited coroutine skips an operation the sync twin performs)')
+    support.coroutine_calls_awaited(ctx, 'C18.R8')
